@@ -21,6 +21,8 @@ func propC04(c *Ctx) {
 	defer func() {
 		rfr := c.Rule("full-read", "every direct Read on an io.Reader in the decoder uses the byte count returned (a reader may deliver the stream in pieces)", 1)
 		ruleFullRead(c, rfr)
+		rsl := c.Rule("syncmap-lock", "the encoder walks a SyncMap's map only while it holds the SyncMap's lock (a decoded Bytecode links the host's live module objects: re-encoding it runs beside the host's writers)", 1)
+		ruleSyncMapLock(c, rsl, func(pp string) bool { return pp == modPath+"/encoder" })
 		rsa := c.Rule("scalar-accept", "the integer scalar decoders reject, on the ground of the decoded value, only values outside the range of the Go type the encoder writes", 3)
 		ruleScalarAccept(c, rsa)
 	}()
